@@ -221,7 +221,7 @@ def run_C08(ctx):
         # pairs of depth-2 layouts are too many to enumerate (the exhaustive run did not finish in 25 min): random behaviours
         consts = dict(consts, MaxDepth="2")
         ctx.tlc_phase("concat-pairs-deep-simulate", "Session", consts, invariants=["Refines", "Closed"],
-                      simulate="num=400000", depth=12, view=None)
+                      simulate="num=100000", depth=12, view=None, timeout=2400)
     ctx.chain_phase("chains-code-to-spec", (4000 if ctx.quick() else 60000), 5, ops={"concatself", "same"})
     ctx.pychain_phase("python-chains-code-to-spec", (4000 if ctx.quick() else 60000), 5, ops={"concat0", "concat1", "concat2", "concatperm", "same", "maysame"})
     return ctx.finish(assumptions=["ak.concatenate(axis=0) is replayed as its C++ call sequence mergeable/mergemany/merge_as_union/simplify_uniontype",
@@ -656,11 +656,16 @@ L2_TRUSTED = "harness/l2/_ext.py + harness/l2/akworker_l2.cpp (stand-in for the 
 def run_C04(ctx):
     ctx.build_l2()
     q = ctx.quick()
-    consts = session_consts(OpSet='{"ufunc","aux"}', LeafSet=leafset(2), MaxDepth="1" if q else "2", MaxLen="2",
+    consts = session_consts(OpSet='{"ufunc","aux"}', LeafSet=leafset(2), MaxDepth="1", MaxLen="2" if q else "3",
                             Classes='{"ListOffset","List","Regular","IndexedOption","ByteMasked","Indexed","Unmasked"}')
     ctx.l2_phase("ufunc-broadcast-pairs", "Session", consts, ("l2replay", "h_c04"), invariants=["Closed"],
                  require_actions=["UfuncOp", "StoreAux", "WrapRegular", "WrapListOffset", "WrapIndexedOption"],
-                 sample_cases=(40000 if q else 600000), timeout=1200)
+                 sample_cases=(40000 if q else 600000), timeout=2400)
+    if not q:
+        # pairs of depth-2 layouts cannot be enumerated (no end after 20 min): random behaviours instead
+        consts = dict(consts, MaxDepth="2", MaxLen="2")
+        ctx.l2_phase("ufunc-broadcast-pairs-deep-simulate", "Session", consts, ("l2replay", "h_c04"), invariants=["Closed"],
+                     simulate="num=100000", depth=12, view=None, timeout=2400)
     consts = session_consts(OpSet='{"ufunc"}', LeafSet=leafset(2), MaxDepth="2" if q else "3", MaxLen="2",
                             Classes='{"ListOffset","List","Regular","IndexedOption","ByteMasked","BitMasked","Indexed","Unmasked"}')
     ctx.l2_phase("ufunc-scalars-deep", "Session", consts, ("l2replay", "h_c04"), invariants=["Closed"],
